@@ -24,7 +24,7 @@ SPEC = dict(
     ),
     bound=dict(
         quick="programs with <= 2 ops over 3 leaves, shape scenarios S1,S2 (all grad) and S1 (L1 without grad), S3 depth<=1",
-        thorough="programs with <= 3 ops (depth 3 on S1/all flags only, outputs in one order), all scenarios at depth <= 2",
+        thorough="all scenarios with <= 2 ops (full configuration product, both output orders) plus all programs with 3 ops on scenario S1 (all leaves requiring grad; light product, ascending output order)",
     ),
     assumptions=[
         "ops limited to the grammar of mc/programs.py; <= 3 leaves; <= 2 output tensors; tensors <= 2-d",
@@ -47,7 +47,7 @@ def gen_cases(tier, seed):
                 ("S1", "L1off", 1, "full"), ("S1", "L1off", 2, "light"), ("S3", "all", 1, "full"), ("S3", "L1off", 1, "full")]
     else:
         plan = [(s, f, d, "full") for s in P.SHAPE_SCENARIOS for f in P.FLAG_SCENARIOS for d in (1, 2)]
-        plan += [("S1", "all", 3, "light"), ("S1", "L1off", 3, "light"), ("S2", "all", 3, "light")]
+        plan += [("S1", "all", 3, "light")]
     for scen, flags, depth, mode in plan:
         shapes, req = P.SHAPE_SCENARIOS[scen], P.FLAG_SCENARIOS[flags]
         for prog, outs in P.enum_program_outputs(shapes, req, depth, both_orders=(mode != "light")):
